@@ -1,0 +1,13 @@
+//go:build verif
+
+package cpumem
+
+import (
+	"github.com/projecteru2/core/store/etcdv3/meta"
+	coretypes "github.com/projecteru2/core/types"
+)
+
+// NewPluginWithStore builds the cpumem plugin over an injected meta.KV (simulation seam).
+func NewPluginWithStore(config coretypes.Config, kv meta.KV) *Plugin {
+	return &Plugin{name: name, config: config, store: kv}
+}
